@@ -220,6 +220,16 @@ fn c02_one(spec: &Spec, bytes: &[u8], p: &Progress, sub: usize, label: &str) -> 
 		return v(label, format!("quirks {} came back as {:?}", want_quirks, back.quirks));
 	}
 	tri!(same_as_reference(label, "the game read back from the .slpp", &back, &reference));
+	// the same archive delivered in short reads (a pipe, a BufReader, a decompressor): the result may not depend on fragmentation
+	for chunk in [7usize, 1000] {
+		let o = pp::de::Opts { skip_frames: false };
+		match p.timed(sub, || guard(|| pp::read(crate::oracles::Chunked { data: &out, pos: 0, chunk }, Some(&o)).map_err(|e| e.to_string()))) {
+			Ok(Ok(g)) => tri!(same_as_reference(label, &format!("the game read back from the .slpp in reads of at most {} bytes", chunk), &g, &reference)),
+			Ok(Err(e)) if is_f3(zero, &e) && known("F3") => {}
+			Ok(Err(e)) => return v(label, format!("the .slpp just written cannot be read when the stream delivers at most {} bytes per read: {}", chunk, e)),
+			Err(pn) => return v(label, format!("the .slpp reader panicked on reads of at most {} bytes: {}", chunk, pn)),
+		}
+	}
 	Holds
 }
 
